@@ -47,13 +47,15 @@ Fixpoint assoc {A : Type} (k : string) (l : list (string * A)) : option A :=
   | (k', v) :: r => if String.eqb k k' then Some v else assoc k r
   end.
 
-(* A Go function identifier without an entry in the effect table is NOT assumed pure. *)
-Definition effect_of (f : string) : list effect :=
-  match assoc f fn_effects with Some e => e | None => [Eunknown] end.
+(* A Go function identifier without an entry in the effect table is NOT assumed pure.
+   Sandboxed configurations use the table in which functions that start with a guard on the
+   interpreter's sandbox flag are cut (identical to fn_effects while the source has no such flag). *)
+Definition effect_of (c : cfg) (f : string) : list effect :=
+  match assoc f (if sandboxed c then fn_effects_sandboxed else fn_effects) with Some e => e | None => [Eunknown] end.
 
-Definition effects_of (fs : list string) : list effect := flat_map effect_of fs.
+Definition effects_of (c : cfg) (fs : list string) : list effect := flat_map (effect_of c) fs.
 
-Definition pure (f : string) : bool := match effect_of f with [] => true | _ => false end.
+Definition pure (c : cfg) (f : string) : bool := match effect_of c f with [] => true | _ => false end.
 
 (* Go functions behind the non-value bindings of a configuration *)
 Definition prim_fns (bs : list (string * bkind * string)) : list string :=
@@ -168,17 +170,17 @@ Definition known_leak_bindings (c : cfg) : list string :=
 Definition mem (s : string) (l : list string) : bool := existsb (String.eqb s) l.
 
 Definition binding_ok (c : cfg) (b : string * bkind * string) : bool :=
-  match b with (n, k, f) => orb (is_value k) (orb (pure f) (mem n (known_leak_bindings c))) end.
+  match b with (n, k, f) => orb (is_value k) (orb (pure c f) (mem n (known_leak_bindings c))) end.
 
-Definition special_ok (s : string * string) : bool := orb (pure (snd s)) (mem (fst s) known_leak_specials).
+Definition special_ok (c : cfg) (s : string * string) : bool := orb (pure c (snd s)) (mem (fst s) known_leak_specials).
 
-Definition binding_pure (b : string * bkind * string) : bool :=
-  match b with (_, k, f) => orb (is_value k) (pure f) end.
+Definition binding_pure (c : cfg) (b : string * bkind * string) : bool :=
+  match b with (_, k, f) => orb (is_value k) (pure c f) end.
 
 Definition tables_ok (c : cfg) : bool :=
   andb (forallb (binding_ok c) (bindings c))
-       (andb (forallb special_ok special_forms)
-             (andb (forallb binding_pure implicit_prims) (forallb pure vm_core))).
+       (andb (forallb (special_ok c) special_forms)
+             (andb (forallb (binding_pure c) implicit_prims) (forallb (pure c) vm_core))).
 
 (* Go functions behind the known leaks of configuration c *)
 Definition leak_fns (c : cfg) : list string :=
@@ -187,10 +189,10 @@ Definition leak_fns (c : cfg) : list string :=
 
 (* the impure entries, as (table, script name, Go function) -- what the check reports *)
 Definition impure_entries (c : cfg) : list (string * string * string) :=
-  flat_map (fun b => match b with (n, k, f) => if orb (is_value k) (pure f) then [] else [("binding", n, f)] end) (bindings c) ++
-  flat_map (fun s => if pure (snd s) then [] else [("special", fst s, snd s)]) special_forms ++
-  flat_map (fun b => match b with (n, k, f) => if pure f then [] else [("implicit", n, f)] end) implicit_prims ++
-  flat_map (fun f => if pure f then [] else [("vm", f, f)]) vm_core.
+  flat_map (fun b => match b with (n, k, f) => if orb (is_value k) (pure c f) then [] else [("binding", n, f)] end) (bindings c) ++
+  flat_map (fun s => if pure c (snd s) then [] else [("special", fst s, snd s)]) special_forms ++
+  flat_map (fun b => match b with (n, k, f) => if pure c f then [] else [("implicit", n, f)] end) implicit_prims ++
+  flat_map (fun f => if pure c f then [] else [("vm", f, f)]) vm_core.
 
 (* ---- decoding of the harness's abstract program text (used by the model runner only) ---- *)
 Definition effect_name (e : effect) : string :=
@@ -204,8 +206,8 @@ Definition all_effects : list effect :=
   [Echdir; Eenvread; Eenvwrite; Eexit; Efileread; Efilewrite; Enet; Eprocess; Estdinread; Eterminal; Eunknown].
 
 (* the effect classes of a run, without duplicates, in a fixed order *)
-Definition effect_set (fs : list string) : list effect :=
-  let es := effects_of fs in filter (fun e => existsb (effect_eqb e) es) all_effects.
+Definition effect_set (c : cfg) (fs : list string) : list effect :=
+  let es := effects_of c fs in filter (fun e => existsb (effect_eqb e) es) all_effects.
 
 Definition predicted_effects (c : cfg) (p : prog) : list string :=
-  map effect_name (effect_set (run_abs c p)).
+  map effect_name (effect_set c (run_abs c p)).
